@@ -292,6 +292,11 @@ func vRunPP(t *testing.T, id int, c vPPCase, cutAt int) (l vPPLine) {
 	}
 	addrH := Address{Addr: "10.0.0.2:7946", Name: "host"}
 	var err error
+	if c.Fail == "busy" {
+		// the host has the maximum number of exchanges in progress (their handlers are counted, nothing else)
+		H.m.pushPullReq.Add(maxPushPullRequests)
+		defer H.m.pushPullReq.Add(^uint32(maxPushPullRequests - 1))
+	}
 	switch {
 	case (c.Fail == "nodecap" || c.Fail == "usercap") && c.Dir == "i2h":
 		// a raw initiator declaring oversized state to the real host
